@@ -23,6 +23,8 @@ SMOKE = [
     ('SelectCandidates', 'MC_SelectCandidates_prefix.cfg', 'Disjoint'),
     ('GenerateDates', 'MC_GenerateDates_timeofday.cfg', 'MeetsContract'),
     ('RelPeriodMech', 'MC_RelPeriod_prefix.cfg', 'MeetsContract'),
+    ('AddMod', 'MC_AddMod_prefix.cfg', ('InBounds', 'TextIsSlice')),
+    ('AddMod', 'MC_AddMod_adjacent.cfg', 'OnlyAdjacent'),
     ('RelPeriodMech', 'MC_RelPeriod_weekend.cfg', 'WeekendIsoYear'),
 ]
 
